@@ -50,7 +50,33 @@ def check(diff, pids):
     finally:
         sh("git -C /repo checkout -- .")
     return res
+def checkwt(diff, pids, wt="/tmp/mutchk"):
+    """Same verdicts without touching /repo: the diff is applied in a scratch worktree and the checks are pointed at it (VERIF_REPO);
+    work files and evidence of such a run go to /verif/.work-alt, never to /verif/evidence."""
+    sh("git -C /repo worktree remove --force %s" % wt); sh("git -C /repo worktree add -q --detach %s HEAD" % wt)
+    res = {}
+    try:
+        rc, out = sh("git apply %s" % diff, cwd=wt)
+        if rc != 0: print("patch does not apply:", out[-300:]); return
+        env = dict(ENV, VERIF_REPO=wt)
+        for pid in pids:
+            p = subprocess.run("./check %s quick" % pid, shell=True, cwd="/verif", env=env, capture_output=True, text=True, timeout=3000); rc, out = p.returncode, p.stdout + p.stderr
+            v = [l for l in out.splitlines() if l.startswith("VIOLATION") or l.startswith("KNOWN-FINDING")]
+            res[pid] = {"exit": rc, "violations": len(v), "first": v[:2], "tail": out.strip().splitlines()[-1] if out.strip() else ""}
+            detail = ""
+            if v:
+                m = re.search(r"replay=(\S+)", v[0])
+                if m and os.path.exists(m.group(1)):
+                    try: detail = json.load(open(m.group(1))).get("clause", "")[:300]
+                    except Exception: pass
+            res[pid]["clause"] = detail
+            print(pid, "exit", rc, "violations", len(v), "|", detail[:200])
+    finally:
+        sh("git -C /repo worktree remove --force %s" % wt)
+    return res
 if __name__ == "__main__":
+    if sys.argv[1] == "checkwt":
+        r = checkwt(sys.argv[2], sys.argv[3:]); print(json.dumps(r, indent=1) if r else ""); sys.exit(0)
     if sys.argv[1] == "confirm":
         r = confirm(sys.argv[2], sys.argv[3], sys.argv[4] if len(sys.argv) > 4 else "/tmp/mutv"); print(json.dumps(r, indent=1))
     else:
